@@ -34,7 +34,7 @@ static int spec_entry(int o, int j)
   if (!(OBJX(o, OTHER_EXISTS) && OBJX(o, OTHER_TYPE) == t)) return 0;
   if (OBJX(o, OTHER_KIND) == 1) return len == 1 && ((OBJX(o, OTHER_ULONG) != 0) == (vp_in_tbytes[j * 8] == CK_TRUE));
   if (OBJX(o, OTHER_KIND) == 2) return len == 8 && OBJX(o, OTHER_ULONG) == tval_ulong(j);
-  if (OBJX(o, OTHER_KIND) == 3)
+  if (OBJX(o, OTHER_KIND) != 4)      /* every other kind value denotes a byte string in the environment */
   {
     CK_ULONG slen = OBJX(o, OTHER_LEN) > VP_BS_MAX ? VP_BS_MAX : OBJX(o, OTHER_LEN);
     const unsigned char* val = &vp_in_bytes[o * VP_BS_MAX];
